@@ -110,6 +110,7 @@ func __haskey[K comparable, V any](m map[K]V, k K) bool { _, ok := m[k]; return 
 func __visited(k any) bool                       { return true }
 func __forallcells[T any](f func(T) bool) bool   { return true }
 func __iterstart[T any](x T) T                   { return x }
+func __atcall[T any](x T) T                      { return x }
 func __samecontent(a, b any) bool                { return true }
 func __samemap(a, b any) bool                    { return true }
 func __cancelled(ctx any) bool                   { return false }
@@ -144,7 +145,7 @@ func __exists(lo, hi int, f func(int) bool) bool {
 
 // racExecutable: the clause uses no specification-only builtin (ghost state,
 // allocation freshness, aliasing predicates), which have no run-time meaning.
-var racGhostRe = regexp.MustCompile(`\b(sentcount|lastsent|ghost|fresh|samefn|sameslice|disjoint|entry|rangeindex|visited|rlocks|wlocked|samecontent|samemap|iterstart|cancelled)\(|\bin allocated\b`)
+var racGhostRe = regexp.MustCompile(`\b(sentcount|lastsent|ghost|fresh|samefn|sameslice|disjoint|entry|rangeindex|visited|rlocks|wlocked|samecontent|samemap|iterstart|atcall|cancelled)\(|\bin allocated\b`)
 
 func racExecutable(text string) bool {
 	if racGhostRe.MatchString(text) {
